@@ -45,6 +45,7 @@ impl Problem {
             "sho" | "vdp" | "lin2" => 2,
             "robertson" | "lin3" => 3,
             "chain4" | "cascade4" => 4,
+            "empty" => 0,
             _ => 1,
         }
     }
@@ -66,6 +67,7 @@ impl Problem {
             "lin2" => vec![1.0, 0.5],
             "lin3" => vec![1.0, -0.5, 0.25],
             "chain4" | "cascade4" => vec![1.0, 0.0, 0.0, 0.0],
+            "empty" => vec![],
             _ => vec![1.0],
         }
     }
@@ -237,6 +239,7 @@ impl Problem {
     /// half bandwidth of the Jacobian of the composed problem
     pub fn bandwidth(&self) -> usize {
         match self.kind.as_str() {
+            "empty" => 0,
             "lin3" | "chain4" | "cascade4" => 1,
             _ => self.base_dim() - 1,
         }
